@@ -52,6 +52,12 @@ end
 /-- `WellNested`: children inside the parent, siblings with disjoint interiors. -/
 def WellNested (t : Tree κ) : Prop := Nested t ∧ SiblingsApart t
 
+theorem mem_dropLast_or_last {α : Type} (l : List α) (h : l ≠ []) (x : α) (hx : x ∈ l) :
+    x ∈ l.dropLast ∨ x = l.getLast h := by
+  have := List.dropLast_concat_getLast h
+  rw [← this] at hx
+  simpa using hx
+
 theorem resolveIn_none (o : Nat) : ∀ (cs : Forest κ), resolveIn o cs = none →
     ∀ c ∈ cs.toList, c.containsOff o = false
   | .nil, _, c, hc => by simp [Forest.toList] at hc
@@ -89,7 +95,7 @@ mutual
           -- l ∈ chain: either below c's root or c's own link
           have hne : chain ≠ [] := by
             cases hp <;> simp
-          rcases List.mem_dropLast_or_eq_getLast hne hl with h1 | h2
+          rcases mem_dropLast_or_last chain hne l hl with h1 | h2
           · exact hb l h1
           · have : chain.getLast hne = c.link := by
               cases hp with
@@ -112,6 +118,96 @@ mutual
         exact ⟨t, n, by simp [Forest.toList], hc', hp, hn, hb, hnc hc'⟩
       · obtain ⟨c, n, hc, rest⟩ := resolveIn_spec o ts chain h
         exact ⟨c, n, by simp [Forest.toList, hc], rest⟩
+end
+
+theorem resolveIn_eq_none (o : Nat) : ∀ (cs : Forest κ), (∀ c ∈ cs.toList, c.containsOff o = false) →
+    resolveIn o cs = none
+  | .nil, _ => by simp [resolveIn]
+  | .cons t ts, h => by
+    have ht : t.containsOff o = false := h t (by simp [Forest.toList])
+    have : containsOff t.s t.e o = false := by simpa [Tree.containsOff] using ht
+    simp only [resolveIn, this]
+    exact resolveIn_eq_none o ts (fun c hc => h c (by simp [Forest.toList, hc]))
+
+theorem nestedIn_mem {s e : Nat} : ∀ (cs : Forest κ) (c : Tree κ), NestedIn s e cs → c ∈ cs.toList →
+    s ≤ c.s ∧ c.e ≤ e ∧ Nested c
+  | .nil, c, _, hc => by simp [Forest.toList] at hc
+  | .cons t ts, c, h, hc => by
+    simp only [NestedIn] at h
+    simp only [Forest.toList, List.mem_cons] at hc
+    rcases hc with rfl | hc
+    · exact ⟨h.1, h.2.1, h.2.2.1⟩
+    · exact nestedIn_mem ts c h.2.2.2 hc
+
+theorem nested_le : ∀ (t : Tree κ), Nested t → t.s ≤ t.e
+  | .node _ _ _ _, h => by simp only [Nested] at h; exact h.1
+
+/-- with nested spans, the end of a path lies inside its start -/
+theorem path_inside {t m : Tree κ} {chain : List (Link κ)} (hp : Path t chain m) :
+    Nested t → t.s ≤ m.s ∧ m.e ≤ t.e := by
+  induction hp with
+  | here t => intro _; exact ⟨Nat.le_refl _, Nat.le_refl _⟩
+  | down t c n chain hc _ ih =>
+    intro hn
+    cases t with
+    | node k s e cs =>
+      simp only [Nested] at hn
+      obtain ⟨h1, h2, h3⟩ := nestedIn_mem cs c hn.2 hc
+      obtain ⟨h4, h5⟩ := ih h3
+      exact ⟨Nat.le_trans h1 h4, Nat.le_trans h5 h2⟩
+
+theorem contains_of_inside {t m : Tree κ} {o : Nat} (h : t.s ≤ m.s ∧ m.e ≤ t.e)
+    (hm : m.containsOff o = true) : t.containsOff o = true := by
+  simp only [Tree.containsOff, containsOff, Bool.and_eq_true, decide_eq_true_eq] at *
+  omega
+
+theorem path_node_inv {k : κ} {s e : Nat} {cs : Forest κ} {chain : List (Link κ)} {m : Tree κ}
+    (hp : Path (.node k s e cs) chain m) :
+    (chain = [⟨k, s, e⟩] ∧ m = .node k s e cs) ∨
+    (∃ c ch, c ∈ cs.toList ∧ Path c ch m ∧ chain = ch ++ [⟨k, s, e⟩]) := by
+  cases hp with
+  | here => exact .inl ⟨rfl, rfl⟩
+  | down _ c _ ch hc hp' => exact .inr ⟨c, ch, hc, hp', rfl⟩
+
+mutual
+  /-- uniqueness: with nested spans and siblings disjoint at `o`, the only path to a node that
+  contains `o` and has no child containing `o` is the one `resolve` returns -/
+  theorem resolve_unique (o : Nat) : ∀ (t : Tree κ) (chain : List (Link κ)) (m : Tree κ),
+      Nested t → StrictAt o t → Path t chain m → m.containsOff o = true → NoChildContains m o →
+      chain = resolve o t
+    | .node k s e cs, chain, m, hn, hs, hp, hm, hno => by
+      simp only [Nested] at hn
+      simp only [StrictAt] at hs
+      rcases path_node_inv hp with ⟨h1, h2⟩ | ⟨c, ch, hc, hp', h1⟩
+      · subst h2
+        have := resolveIn_eq_none o cs hno
+        simp [resolve, this, h1]
+      · have := resolveIn_unique o cs s e c ch m hn.2 hs hc hp' hm hno
+        simp [resolve, this, h1]
+  theorem resolveIn_unique (o : Nat) : ∀ (cs : Forest κ) (s e : Nat) (c : Tree κ) (chain : List (Link κ)) (m : Tree κ),
+      NestedIn s e cs → StrictIn o cs → c ∈ cs.toList → Path c chain m → m.containsOff o = true →
+      NoChildContains m o → resolveIn o cs = some chain
+    | .nil, _, _, c, _, _, _, _, hc, _, _, _ => by simp [Forest.toList] at hc
+    | .cons t ts, s, e, c, chain, m, hn, hs, hc, hp, hm, hno => by
+      simp only [NestedIn] at hn
+      simp only [StrictIn] at hs
+      simp only [Forest.toList, List.mem_cons] at hc
+      rcases hc with rfl | hc
+      · have hin := path_inside hp hn.2.2.1
+        have hco := contains_of_inside hin hm
+        have hco' : containsOff c.s c.e o = true := by simpa [Tree.containsOff] using hco
+        have := resolve_unique o c chain m hn.2.2.1 hs.1 hp hm hno
+        simp [resolveIn, hco', this]
+      · obtain ⟨_, _, hnc⟩ := nestedIn_mem ts c hn.2.2.2 hc
+        have hin := path_inside hp hnc
+        have hco := contains_of_inside hin hm
+        have ht : t.containsOff o = false := by
+          cases h : t.containsOff o with
+          | false => rfl
+          | true => have := hs.2.2 h c hc; rw [hco] at this; exact absurd this (by simp)
+        have ht' : containsOff t.s t.e o = false := by simpa [Tree.containsOff] using ht
+        simp only [resolveIn, ht']
+        exact resolveIn_unique o ts s e c chain m hn.2.2.2 hs.2.1 hc hp hm hno
 end
 
 end IsoVerif.Resolve
